@@ -30,6 +30,8 @@ class DCheck:
         self.knob_over = knob_over or {}
         self.ref_setup = ref_setup
         self.nontrivial = nontrivial
+        self.w_share = 0.0            # share of runs executed under engine W (statement-level interleaving)
+        self.w_extra = None           # callable(ch, info) -> list of extra worker factories
 
     def flow(self, ch: Choices, tier: str) -> tuple[Program, dict[str, Any] | None, dict[str, Any], dict[str, Any]]:
         prog = self.make_program(ch, tier) if self.make_program else gen_program(ch, self.profile)
@@ -56,6 +58,18 @@ class DCheck:
                     ex.sweeps = info["sweeps"]  # type: ignore[attr-defined]
         info["trace_pos_run"] = len(ch.trace)
         info["budget"] = budget
+        if self.w_share > 0 and ch.flip("engine.w", self.w_share):
+            from .common import run_w
+
+            knobs.peer_emulation = bool(ch.pick("k.peer", 2))
+            info["engine"] = "W"
+            extra = self.w_extra(ch, info) if self.w_extra else None
+            run = run_w(prog, knobs, ch, nworkers=2 + ch.pick("w.n", 2), strategy=ch.choice("w.strategy", ["random", "pct", "random"]),
+                        pct_depth=1 + ch.pick("w.depth", 3), extra_workers=extra)
+            if run["errors"]:
+                raise RuntimeError("worker error in engine W: " + run["errors"][0])
+            run["res"] = type("R", (), {"aborted": run["end"], "deliveries": [], "quiescent": run["quiescent"]})()
+            return prog, ref, run, info
         run = run_exec(prog, knobs, ch, opts, setup=st, max_steps=budget,
                        cancel_requested=bool(info.get("cancel_requested")))
         return prog, ref, run, info
@@ -72,6 +86,9 @@ class DCheck:
         nt = (run["faults"].get("reorder", 0) + run["faults"].get("lost_ack", 0)) > 0
         if self.nontrivial is not None:
             nt = self.nontrivial(run, info)
+        if info.get("engine") == "W":
+            nt = run["stats"].get("preemptions", 0) > 0
+            out["stats"]["engine_W_runs"] = 1
         if ref is not None:
             absorb(out, ref, False)
         absorb(out, run, nt)
